@@ -6,13 +6,13 @@ NAMES = ['os.system', 'subprocess.Popen', 'builtins.eval', 'eval', 'exec', 'prin
          'vf_canary.Canary', 'vf_canary.canary_fn', 'vf_canary.instance', 'vf_canary.VALUE', 'vf_canary.Plain', 'vf_canary', 'vf_unimported.f', 'vf_unimported.K',
          'vf_unimported', 'vf_canary.ITER', 'vf_canary.STEPPER', 'vf_canary.Canary.computed', 'vf_canarypkg.VALUE', 'vf_canarypkg.unimp', 'vf_canarypkg.unimp.f',
          'vf_unimppkg.sub.f', 'vf_unimppkg.sub', 'vf_unimppkg', '', 'a.b.c.garbage', 'nosuchmodule.x', 'os.', '.system', 'os.nosuchattr', 'yaml.constructor.Constructor', 'builtins.object', 'collections.OrderedDict']
-OTHER_TAGS = ['!foo', '!f', 'tag:example.org,2011:x', P + 'x', P + 'Str', P + 'python/none:', P + 'int2', P + 'python', P + 'python/', P + 'python/object', P + 'python/name',
+OTHER_TAGS = ['!foo', '!f', '!int', '!str', '!seq', '!map', '!null', '!python/name:os.system', '!python/object/apply:os.system', 'tag:example.org,2011:x', P + 'x', P + 'Str', P + 'python/none:', P + 'int2', P + 'python', P + 'python/', P + 'python/object', P + 'python/name',
               P + 'python/object/apply', P + 'PYTHON/name:os.system', P + 'python/object/newer:os.system', P + 'python/namespace:os.system', 'tag:yaml.org,2002python/name:os.system',
               'tag:python.yaml.org,2002:object/apply:os.system', P + 'ruby/object:Foo', P + 'java/object:java.lang.Runtime']
 KINDS = ['scalar_empty', 'scalar_arg', 'seq', 'map', 'map_full']
 CONTEXTS = ['root', 'seq_item', 'map_value', 'map_key', 'anchored_aliased', 'merge_value', 'merge_alias', 'merge_list', 'in_set', 'set_value', 'in_omap', 'omap_key', 'in_pairs',
             'second_doc', 'depth3', 'alias_key', 'inside_merge_source', 'value_key_value', 'value_key_sibling', 'value_key_alias',
-            'merge_overridden', 'merge_overridden_list', 'merge_overridden_deep', 'dup_key_shadowed', 'dup_key_shadowing', 'merge_twice']
+            'merge_overridden', 'merge_overridden_list', 'merge_overridden_deep', 'dup_key_shadowed', 'dup_key_shadowing', 'merge_twice', 'after_handle_doc', 'after_handle_doc_secondary']
 FULL_CONTEXTS = CONTEXTS + ['in_pytuple', 'in_pydict', 'in_pylist_key']
 SPELLINGS = ['bangbang', 'verbatim', 'handle', 'percent']
 
@@ -140,6 +140,18 @@ def render(tag, kind, context, spelling='bangbang'):
         body = '!!omap\n- a: 1\n- b: ' + node + '\n'
     elif context == 'in_pairs':
         body = '!!pairs\n- a: 1\n- ? ' + node + '\n  : 2\n'
+    elif context in ('after_handle_doc', 'after_handle_doc_secondary'):
+        # an earlier document maps a handle onto the core (or python/) prefix; handles end with their document, so the
+        # same spelling in a later, directive-less document is a local tag (primary handle) / the default prefix (secondary)
+        if directives or (ttext and (not ttext.startswith('!') or ttext.startswith('!<'))):
+            return None
+        if context == 'after_handle_doc':
+            if ttext.startswith('!!'):
+                return None
+            return '%TAG ! ' + (P if 'python' in tag else P) + '\n--- first\n--- ' + node + '\n', info
+        if ttext and not ttext.startswith('!!'):
+            return None
+        return '%TAG !! tag:example.org,2002:x/\n--- first\n--- ' + node + '\n', info
     elif context == 'second_doc':
         return 'first: doc\n...\n' + directives + '---\n- ' + node + '\n', info
     elif context == 'depth3':
